@@ -825,4 +825,230 @@ theorem branch_head {h : Hist} {o : LoadOpts} {m : LMap} (hl : load h o = .ok m)
       rw [hf] at this
       simpa using this
 
+/-- **`<branch>@head` with two heads on the branch is refused**: the statement read the other way
+round — whenever two different heads share the branch's lineage, no answer comes back at all
+(seeded change C16-l let the first of them through). -/
+theorem branch_head_ambiguous {h : Hist} {o : LoadOpts} {m : LMap} (hl : load h o = .ok m)
+    (hsub : ∀ x ∈ m.heads, x ∈ m.ids) (L : String) (br : Id) (hb : BranchName m L br)
+    (x y : Id) (hx : x ∈ m.heads) (hy : y ∈ m.heads) (hxy : x ≠ y)
+    (sx : sharesLineage m x [br] false = true) (sy : sharesLineage m y [br] false = true) :
+    ∀ rs, getRevisions m (L ++ "@head") ≠ .ok rs := by
+  intro rs hr
+  rcases branch_head hl hsub L br hb rs hr with ⟨_, hnone⟩ | ⟨z, _, _, _, huniq⟩
+  · have := hnone x hx
+    rw [sx] at this
+    cases this
+  · exact hxy ((huniq x hx sx).trans (huniq y hy sy).symm)
+
+theorem mapM_ok_map {α β} (f : α → Except Err β) (g : α → β) : ∀ (l : List α), (∀ x ∈ l, f x = .ok (g x)) →
+    l.mapM f = .ok (l.map g)
+  | [], _ => rfl
+  | a :: r, h => by
+    simp only [List.mapM_cons, bind, Except.bind, pure, Except.pure, h a List.mem_cons_self,
+      mapM_ok_map f g r (fun x hx => h x (List.mem_cons_of_mem _ hx)), List.map_cons]
+
+/-- **`<branch>@heads` is every head of that branch**: for every loaded history and every branch
+name that is a key of the map (a branch label, or a full revision id) for revision `br`,
+`get_revisions("<branch>@heads")` answers exactly the heads that share `br`'s `down_revision`
+lineage, in the order of `heads` — none is left out, none from another branch is let in. -/
+theorem branch_heads {h : Hist} {o : LoadOpts} {m : LMap} (hl : load h o = .ok m)
+    (hsub : ∀ x ∈ m.heads, x ∈ m.ids) (L : String) (br : Id) (hb : BranchName m L br) :
+    getRevisions m (L ++ "@heads") =
+      .ok ((m.heads.filter (fun t => sharesLineage m t [br] false)).map some) := by
+  have hb' := hb
+  obtain ⟨hat, hne, h1, h2, h3, hlk⟩ := hb
+  have hLe : L.isEmpty = false := by
+    cases hq : L.isEmpty
+    · rfl
+    · exact absurd (String.isEmpty_iff.mp hq) hne
+  have hsplit := splitFirstAt_at L "heads" hat
+  have hfk := filterKeys_name m 7 L br hb' m.heads hsub
+  have hres : resolveRevisionNumber m 12 (L ++ "@" ++ "heads") =
+      .ok (m.heads.filter (fun t => sharesLineage m t [br] false), some L) := by
+    unfold resolveRevisionNumber
+    simp [hsplit, hLe, hfk, bind, Except.bind, pure, Except.pure]
+  have e : L ++ "@heads" = L ++ "@" ++ "heads" := by simp [String.append_assoc]
+  have hrb : resolveBranch m 11 L = .ok (some br) := by unfold resolveBranch; simp [hlk]
+  have hrev : ∀ x ∈ m.heads.filter (fun t => sharesLineage m t [br] false),
+      revisionForIdent m 12 x (some L) = .ok (some x) := by
+    intro x hx
+    obtain ⟨hxh, hxs⟩ := List.mem_filter.mp hx
+    unfold revisionForIdent
+    simp [hLe, hrb, lookup_id m x (hsub x hxh), hxs, bind, Except.bind, pure, Except.pure]
+  have hplain := mapM_ok_map (fun i => revisionForIdent m 12 i (some L)) some _ hrev
+  unfold getRevisions resolveFuel
+  rw [e, hres]
+  simp only [bind, Except.bind]
+  cases hf : m.heads.filter (fun t => sharesLineage m t [br] false) with
+  | nil => rfl
+  | cons x rest =>
+    rw [hf] at hplain hrev
+    cases rest with
+    | nil =>
+      have hxh : x ∈ m.heads := (List.mem_filter.mp (by rw [hf]; exact List.mem_cons_self)).1
+      have hneg : negInt? x = none := load_ids_legal hl x (hsub x hxh)
+      simp only [hneg]
+      exact hplain
+    | cons y r2 => exact hplain
+
+/-! ### `<branch>@heads` / `<branch>@head` in terms of the history as written -/
+
+theorem reach_flip {f g : Id → List Id} (hfg : ∀ a b, b ∈ f a → a ∈ g b) {a b : Id} (hr : Reach f a b) : Reach g b a := by
+  induction hr with
+  | refl _ => exact Reach.refl _
+  | step hs _ ih => exact Reach.trans _ ih (Reach.single _ (hfg _ _ hs))
+
+theorem downParents_nil (h : Hist) (i : Id) (hi : i ∉ ids h) : downParents h i = [] := by
+  unfold downParents revOf
+  have : h.find? (·.id == i) = none := by
+    rw [List.find?_eq_none]; intro r hr; simp; intro e; exact hi (by unfold ids; exact List.mem_map.mpr ⟨r, hr, e⟩)
+  simp [this]
+
+theorem downChildren_iff (h : Hist) (i c : Id) : c ∈ downChildren h i ↔ i ∈ downParents h c := by
+  unfold downChildren
+  simp only [List.mem_filter, decide_eq_true_eq]
+  constructor
+  · exact fun hc => hc.2
+  · intro hp
+    refine ⟨?_, hp⟩
+    apply Classical.byContradiction
+    intro hn
+    rw [downParents_nil h c hn] at hp
+    simp at hp
+
+/-- **the model's lineage test is the oracle's**: "shares the `down_revision` lineage of `br`" as
+`_shares_lineage(x, [br], include_dependencies=False)` computes it on the loaded map is being an
+ancestor or a descendant of `br` along the `down_revision` links written in the files. -/
+theorem sharesLineage_history {h : Hist} {o : LoadOpts} {m : LMap} (hl : load h o = .ok m)
+    (hu : (h.map (·.id)).Nodup) (hd : ∀ r ∈ h, ∀ d ∈ r.down, d ∈ h.map (·.id)) (x br : Id) :
+    sharesLineage m x [br] false = downLineage h br x := by
+  have L := loaded_of_load hl hu hd
+  have hdn : ∀ i, m.downOf i = downParents h i := fun i => downOf_eq_downParents hl hu i
+  have hidseq : m.ids = ids h := by
+    obtain ⟨m1, _, hp1, _, _, _, _, hids, _⟩ := load_graph hl
+    obtain ⟨_, _, _, _, _, hids1, _⟩ := phase1_graph hp1 hu
+    rw [hids, hids1]; rfl
+  have hnx : ∀ a b, b ∈ m.nextrev a ↔ a ∈ m.downOf b := by
+    intro a b
+    rw [nextrev_iff m L.ids_nodup a b]
+    constructor
+    · exact fun hh => hh.2
+    · intro hp
+      refine ⟨?_, hp⟩
+      apply Classical.byContradiction
+      intro hn
+      rw [downOf_nil m b hn] at hp
+      simp at hp
+  have hnil : ∀ i, i ∉ m.ids → m.nextrev i = [] := by
+    intro i hi
+    apply List.eq_nil_iff_forall_not_mem.mpr
+    intro y hy
+    have hy' := (hnx i y).mp hy
+    rw [hdn y] at hy'
+    -- `i` is a down revision written in a file, hence a revision of the history
+    unfold downParents at hy'
+    cases hrev : revOf h y with
+    | none => simp [hrev] at hy'
+    | some rv =>
+      simp only [hrev, Option.map_some, Option.getD_some] at hy'
+      unfold revOf at hrev
+      have hm := List.mem_of_find?_eq_some hrev
+      exact hi (by rw [hidseq]; exact hd rv hm i hy')
+  have hA : br ∈ m.descendantsNoDeps [x] ↔ x ∈ downAncSet h [br] := by
+    have h1 : br ∈ m.descendantsNoDeps [x] ↔ ∃ t ∈ [x], Reach m.nextrev t br :=
+      mem_closureOf_iff m.nextrev m.ids [x] hnil br
+    have h2 : x ∈ downAncSet h [br] ↔ ∃ r ∈ [br], Reach (downParents h) r x := by
+      unfold downAncSet Spec.Rev.closure
+      exact mem_closureOf_iff (downParents h) (ids h) [br] (downParents_nil h) x
+    rw [h1, h2]
+    simp only [List.mem_singleton, exists_eq_left]
+    constructor
+    · intro hr
+      exact reach_mono (fun i p hp => by rw [← hdn i]; exact hp) (reach_flip (fun a b hb => (hnx a b).mp hb) hr)
+    · intro hr
+      exact reach_flip (fun a b hb => (hnx b a).mpr (by rw [hdn a]; exact hb)) hr
+  have hB : br ∈ m.ancestorsNoDeps [x] ↔ x ∈ downDescSet h [br] := by
+    have h1 := mem_ancestorsNoDeps_iff m [x] br
+    have h2 : x ∈ downDescSet h [br] ↔ ∃ r ∈ [br], Reach (downChildren h) r x := by
+      unfold downDescSet Spec.Rev.closure
+      apply mem_closureOf_iff
+      intro i hi
+      apply List.eq_nil_iff_forall_not_mem.mpr
+      intro c hc
+      have hc' := (downChildren_iff h i c).mp hc
+      unfold downParents at hc'
+      cases hrev : revOf h c with
+      | none => simp [hrev] at hc'
+      | some rv =>
+        simp only [hrev, Option.map_some, Option.getD_some] at hc'
+        unfold revOf at hrev
+        have hm := List.mem_of_find?_eq_some hrev
+        exact hi (hd rv hm i hc')
+    rw [h1, h2]
+    simp only [List.mem_singleton, exists_eq_left]
+    constructor
+    · intro hr
+      exact reach_flip (fun a b hb => (downChildren_iff h b a).mpr (by rw [← hdn a]; exact hb)) hr
+    · intro hr
+      exact reach_mono (fun i p hp => by rw [hdn i]; exact hp) (reach_flip (fun a b hb => (downChildren_iff h a b).mp hb) hr)
+  apply Bool.eq_iff_iff.mpr
+  unfold sharesLineage downLineage
+  simp only [List.isEmpty_cons, Bool.false_eq_true, if_false, List.any_cons, List.any_nil, Bool.or_false,
+    Bool.or_eq_true, decide_eq_true_eq]
+  rw [hA, hB]
+
+/-- **`<branch>@heads`, end to end**: what `get_revisions("<branch>@heads")` answers are exactly the
+revisions no file names as `down_revision` that are ancestors or descendants of the branch's
+revision along the `down_revision` links written in the files — the set `Spec.Rev.refTargets`
+gives the oracle for that spelling. -/
+theorem branch_heads_history {h : Hist} {o : LoadOpts} {m : LMap} (hl : load h o = .ok m)
+    (hu : (h.map (·.id)).Nodup) (hd : ∀ r ∈ h, ∀ d ∈ r.down, d ∈ h.map (·.id))
+    (L : String) (br : Id) (hb : BranchName m L br) :
+    ∃ rs : List Id, getRevisions m (L ++ "@heads") = .ok (rs.map some) ∧
+      ∀ x, x ∈ rs ↔ x ∈ (headsOf h).filter (downLineage h br) := by
+  have hh := (C15.heads_bases_history hl hu hd).1
+  have hsub : ∀ x ∈ m.heads, x ∈ m.ids := by
+    intro x hx
+    have hx' := (hh x).mp hx
+    have hidseq : m.ids = ids h := by
+      obtain ⟨m1, _, hp1, _, _, _, _, hids, _⟩ := load_graph hl
+      obtain ⟨_, _, _, _, _, hids1, _⟩ := phase1_graph hp1 hu
+      rw [hids, hids1]; rfl
+    rw [hidseq]
+    unfold headsOf at hx'
+    exact (List.mem_filter.mp hx').1
+  refine ⟨_, branch_heads hl hsub L br hb, ?_⟩
+  intro x
+  simp only [List.mem_filter, hh x, sharesLineage_history hl hu hd x br]
+
+/-- **`<branch>@head`, end to end**: nothing when no head of the history (a revision no file names as
+`down_revision`) lies on the branch's `down_revision` lineage as written in the files, that head
+when there is exactly one, and no answer at all when there are two. -/
+theorem branch_head_history {h : Hist} {o : LoadOpts} {m : LMap} (hl : load h o = .ok m)
+    (hu : (h.map (·.id)).Nodup) (hd : ∀ r ∈ h, ∀ d ∈ r.down, d ∈ h.map (·.id))
+    (L : String) (br : Id) (hb : BranchName m L br)
+    (rs : List (Option Id)) (hr : getRevisions m (L ++ "@head") = .ok rs) :
+    (rs = [] ∧ ∀ y ∈ headsOf h, downLineage h br y = false) ∨
+    ∃ x, rs = [some x] ∧ x ∈ headsOf h ∧ downLineage h br x = true ∧
+      ∀ y ∈ headsOf h, downLineage h br y = true → y = x := by
+  have hh := (C15.heads_bases_history hl hu hd).1
+  have hidseq : m.ids = ids h := by
+    obtain ⟨m1, _, hp1, _, _, _, _, hids, _⟩ := load_graph hl
+    obtain ⟨_, _, _, _, _, hids1, _⟩ := phase1_graph hp1 hu
+    rw [hids, hids1]; rfl
+  have hsub : ∀ x ∈ m.heads, x ∈ m.ids := by
+    intro x hx
+    have hx' := (hh x).mp hx
+    rw [hidseq]
+    unfold headsOf at hx'
+    exact (List.mem_filter.mp hx').1
+  have hs := fun x => sharesLineage_history hl hu hd x br
+  rcases branch_head hl hsub L br hb rs hr with ⟨h1, h2⟩ | ⟨x, h1, h2, h3, h4⟩
+  · left
+    exact ⟨h1, fun y hy => by rw [← hs y]; exact h2 y ((hh y).mpr hy)⟩
+  · right
+    refine ⟨x, h1, (hh x).mp h2, by rw [← hs x]; exact h3, ?_⟩
+    intro y hy hly
+    exact h4 y ((hh y).mpr hy) (by rw [hs y]; exact hly)
+
 end C16
